@@ -1,5 +1,4 @@
-(* C03 proofs, part 4: the statements about scan_all (totality, positions), the refutation of
-   the unguarded statement on the pinned tree, and showSourceLine. *)
+(* C03 proofs, part 4: the statements about scan_all (totality, positions) and showSourceLine. *)
 From Verif Require Import Lib.Base Lib.Utf8 Model.Lexer Proofs.LexerPos Proofs.LexerScan Proofs.LexerTokens.
 From Coq Require Import ZifyBool.
 Open Scope Z_scope.
@@ -11,214 +10,69 @@ Definition token_claim (src : bytes) (t : token) : Prop :=
   (tkind t <> T_ILLEGAL -> tpos t = pos_of_offset src (tstart t) /\ 0 <= tstart t <= zlen src) /\
   (tkind t = T_ILLEGAL -> exists k, 0 <= k <= zlen src /\ tpos t = pos_of_offset src k).
 
-(* the guard: no earlier un-read crossed a line end (tbad), and, for ILLEGAL, next() was not
-   called again after the end of input had been loaded (tover) *)
-Definition token_guard (t : token) : Prop :=
-  tbad t = false /\ (tkind t = T_ILLEGAL -> tover t = false).
-
-Lemma tok_ok_claim src t : tok_ok src t -> token_guard t -> token_claim src t.
-Proof.
-  intros Hok (Hb & Ho). destruct (Hok Hb) as (H1 & H2). split; [exact H1|].
-  intros Hk. apply H2; auto.
-Qed.
-
 Lemma new_lexer_norm src c s :
-  src = c :: s -> okr (fun l => NormInv src l /\ xl l = false) (new_lexer src).
+  src = c :: s -> okr (fun l => NormInv src l) (new_lexer src).
 Proof.
-  intros ->. unfold new_lexer, next. cbn [offset ch npos lpos hadSpace lastTok xl over].
+  intros ->. unfold new_lexer, next. cbn [offset ch npos lpos hadSpace lastTok].
   assert (Hlen : zlen (c :: s) >= 1) by (rewrite zlen_cons; pose proof (zlen_nonneg s); lia).
   replace (0 >=? zlen (c :: s)) with false by lia.
   assert (Hi : index (c :: s) 0 = Ok c).
   { unfold index. replace ((0 <=? 0) && (0 <? zlen (c :: s))) with true by lia. reflexivity. }
-  rewrite Hi. cbn [of_res lbind]. apply okr_ret. split; [|reflexivity].
-  split; [|intros H; discriminate H].
-  split; [|split].
+  rewrite Hi. cbn [of_res lbind]. apply okr_ret.
+  split.
   - split; cbn [offset ch]; [lia|]. symmetry. apply getch_index. exact Hi.
-  - cbn [offset]. lia.
-  - intros _. unfold Norm. cbn [offset lpos npos ch]. splits; [lia|reflexivity|reflexivity].
+  - unfold Norm. cbn [offset lpos npos ch]. splits; [lia|reflexivity|].
+    change (0 + 1) with (0 + 1). rewrite (pos_of_offset_step _ 0 c Hi). reflexivity.
 Qed.
 
 Theorem scan_all_spec src ds :
-  okr (fun os => all_ok src os /\ ends_final os /\ first_bad os false /\ explained src False os /\ over_ok src os)
-      (scan_all src ds).
+  okr (fun os => all_ok src os /\ ends_final os) (scan_all src ds).
 Proof.
   destruct src as [|c s] eqn:Esrc.
   - (* the empty source: one EOF token at 1:1 *)
     cbv [scan_all new_lexer next lbind lex_fuel length scan_loop Scan scan set_had_space skip_ws
-         offset ch lpos npos hadSpace lastTok xl over zlen Z.of_nat Z.geb Z.compare Z.eqb orb andb negb
+         offset ch lpos npos hadSpace lastTok zlen Z.of_nat Z.geb Z.compare Z.eqb orb andb negb
          tok_at is_final tkind fst snd set_last_tok T_EOF T_ILLEGAL Pos.eqb Z.gtb].
-    apply okr_ret. splits.
-    + constructor; [|constructor]. intros _. cbn. split.
-      * intros _. split; [reflexivity|lia].
+    apply okr_ret. split.
+    + constructor; [|constructor]. cbn. split.
+      * intros _. cbn [tpos tstart]. split; [reflexivity|]. change (zlen (@nil Z)) with 0. lia.
       * intros H; discriminate H.
     + eexists [], _. splits; [reflexivity|reflexivity|constructor].
-    + reflexivity.
-    + cbn. split; [intros H; discriminate H|exact I].
-    + constructor; [intros H; discriminate H|constructor].
   - rewrite <- Esrc. unfold scan_all.
     eapply okr_bind; [apply (new_lexer_norm src c s Esrc)|].
-    intros l (Hn & Hx).
-    eapply okr_weaken; [apply (scan_loop_spec src _ ds l Hn (lex_fuel_enough src l Hn))|].
-    intros os (H1 & H2 & H3 & H4 & H5). rewrite Hx in H3. splits; try assumption.
-    apply (explained_weaken src os (xl l = true)); [rewrite Hx; intros K; discriminate K|exact H4].
+    intros l Hn.
+    apply (scan_loop_spec src _ ds l Hn (lex_fuel_enough src l Hn)).
 Qed.
 
 (* totality: the model lexer never panics, never runs out of fuel, and stops at EOF or ILLEGAL *)
 Theorem lexer_total src ds : exists os, scan_all src ds = LOk os /\ ends_final os.
 Proof.
-  destruct (scan_all_spec src ds) as (os & E & _ & H & _). eauto.
+  destruct (scan_all_spec src ds) as (os & E & _ & H). eauto.
 Qed.
 
-Theorem lexer_positions_guarded src ds os :
-  scan_all src ds = LOk os ->
-  forall o, In o os -> token_guard (otok o) -> token_claim src (otok o).
+(* every reported position is the true one *)
+Theorem lexer_positions src ds os :
+  scan_all src ds = LOk os -> forall o, In o os -> token_claim src (otok o).
 Proof.
-  intros E o Hin Hg. destruct (scan_all_spec src ds) as (os' & E' & Hall & _).
+  intros E o Hin. destruct (scan_all_spec src ds) as (os' & E' & Hall & _).
   rewrite E in E'. injection E' as <-.
-  unfold all_ok in Hall. rewrite Forall_forall in Hall.
-  apply tok_ok_claim; auto.
-Qed.
-
-(* the first token is never affected: the guard is not vacuous *)
-Theorem first_token_unaffected src ds os :
-  scan_all src ds = LOk os -> exists o rest, os = o :: rest /\ tbad (otok o) = false.
-Proof.
-  intros E. destruct (scan_all_spec src ds) as (os' & E' & _ & _ & Hf & _ & _).
-  rewrite E in E'. injection E' as <-. destruct os as [|o rest]; [contradiction|]. eauto.
-Qed.
-
-(* ---- what the flag tbad means in terms of the source -------------------------------------- *)
-Lemma explained_split src pre : forall (S : Prop) o post,
-  explained src S (pre ++ o :: post) -> tbad (otok o) = true ->
-  S \/ exists n, In n pre /\ cause src (otok n).
-Proof.
-  induction pre as [|p pre IH]; intros S o post; cbn [app explained].
-  - intros (H & _) Hb. left; auto.
-  - intros (_ & H) Hb. destruct (IH _ o post H Hb) as [[HS|Hc]|(n & Hin & Hc)].
-    + left; exact HS.
-    + right. exists p. split; [left; reflexivity|exact Hc].
-    + right. exists n. split; [right; exact Hin|exact Hc].
-Qed.
-
-(* a token is flagged only if an EARLIER token is a NUMBER directly followed, in the source, by
-   e/E, an optional sign, and CR or LF *)
-Theorem bad_has_cause src ds os pre o post :
-  scan_all src ds = LOk os -> os = pre ++ o :: post -> tbad (otok o) = true ->
-  exists n, In n pre /\ cause src (otok n).
-Proof.
-  intros E -> Hb. destruct (scan_all_spec src ds) as (os' & E' & _ & _ & _ & Hex & _).
-  rewrite E in E'. injection E' as <-.
-  destruct (explained_split src pre False o post Hex Hb) as [[]|H]. exact H.
-Qed.
-
-(* hence a purely textual guard: a source in which no e/E is followed, directly or after one
-   sign, by CR or LF is lexed without any flagged token *)
-Definition no_dangling_eol (src : bytes) : Prop := forall j, ~ dangling_eol src j.
-
-Theorem no_dangling_no_bad src ds os :
-  no_dangling_eol src -> scan_all src ds = LOk os -> forall o, In o os -> tbad (otok o) = false.
-Proof.
-  intros Hnd E o Hin. destruct (tbad (otok o)) eqn:Hb; [exfalso|reflexivity].
-  destruct (in_split _ _ Hin) as (pre & post & Eos).
-  destruct (bad_has_cause src ds os pre o post E Eos Hb) as (n & _ & (_ & Hd)).
-  exact (Hnd _ Hd).
-Qed.
-
-Theorem lexer_positions_textual_guard src ds os :
-  no_dangling_eol src -> scan_all src ds = LOk os ->
-  forall o, In o os -> tkind (otok o) <> T_ILLEGAL ->
-  tpos (otok o) = pos_of_offset src (tstart (otok o)) /\ 0 <= tstart (otok o) <= zlen src.
-Proof.
-  intros Hnd E o Hin Hk.
-  destruct (lexer_positions_guarded src ds os E o Hin) as (H & _).
-  - split; [eapply no_dangling_no_bad; eauto|intros; contradiction].
-  - exact (H Hk).
-Qed.
-
-(* the flag tover is raised only if the last byte of the source is a backslash *)
-Theorem over_has_cause src ds os :
-  scan_all src ds = LOk os -> forall o, In o os -> tover (otok o) = true ->
-  getch src (zlen src - 1) = 92.
-Proof.
-  intros E o Hin Ho. destruct (scan_all_spec src ds) as (os' & E' & _ & _ & _ & _ & Hov).
-  rewrite E in E'. injection E' as <-. unfold over_ok in Hov. rewrite Forall_forall in Hov.
-  exact (Hov o Hin Ho).
-Qed.
-
-(* both guards in terms of the source text only *)
-Theorem lexer_positions_textual src ds os :
-  no_dangling_eol src -> getch src (zlen src - 1) <> 92 -> scan_all src ds = LOk os ->
-  forall o, In o os -> token_claim src (otok o).
-Proof.
-  intros Hnd Hbs E o Hin. apply (lexer_positions_guarded src ds os E o Hin). split.
-  - eapply no_dangling_no_bad; eauto.
-  - intros _. destruct (tover (otok o)) eqn:Ho; [|reflexivity].
-    exfalso. apply Hbs. exact (over_has_cause src ds os E o Hin Ho).
-Qed.
-
-(* ---- the unguarded statement and its refutation on the pinned tree ---------------------- *)
-Definition lexer_positions_statement : Prop :=
-  forall src ds os, scan_all src ds = LOk os -> forall o, In o os -> token_claim src (otok o).
-
-Lemma pos_pair_neq (a b c d : Z) : (a =? c) && (b =? d) = false -> (a, b) <> (c, d).
-Proof. intros H E. injection E as -> ->. rewrite !Z.eqb_refl in H. discriminate. Qed.
-
-(* source 1 e LF: NUMBER at 1:1, NAME at 1:2, then NEWLINE reported at 2:0 (true: 1:3) *)
-Theorem lexer_positions_refuted : ~ lexer_positions_statement.
-Proof.
-  intros H.
-  pose (src := [49; 101; 10]).
-  destruct (scan_all src []) as [os| |] eqn:E; [|vm_compute in E; discriminate E|vm_compute in E; discriminate E].
-  specialize (H src [] os E).
-  vm_compute in E. injection E as <-.
-  match type of H with forall o, In o (_ :: _ :: ?o3 :: _) -> _ =>
-    specialize (H o3 (or_intror (or_intror (or_introl eq_refl)))) end.
-  destruct H as (H & _). cbn [otok tkind tpos tstart] in H.
-  destruct H as (Hp & _); [intros K; discriminate K|].
-  vm_compute in Hp. discriminate Hp.
-Qed.
-
-(* source of two bytes, a double quote and a backslash: the ILLEGAL token is reported at 1:4; the source has the
-   offsets 0..2, i.e. the positions 1:1 .. 1:3 *)
-Theorem illegal_position_refuted :
-  exists src os o, scan_all src [] = LOk os /\ In o os /\ tbad (otok o) = false /\
-    tkind (otok o) = T_ILLEGAL /\ ~ (exists k, 0 <= k <= zlen src /\ tpos (otok o) = pos_of_offset src k).
-Proof.
-  exists [34; 92].
-  destruct (scan_all [34; 92] []) as [os| |] eqn:E; [|vm_compute in E; discriminate E|vm_compute in E; discriminate E].
-  exists os. vm_compute in E. injection E as <-.
-  eexists. split; [reflexivity|]. split; [left; reflexivity|]. split; [reflexivity|]. split; [reflexivity|].
-  cbn [otok tpos]. intros (k & Hk & Hp). change (zlen [34; 92]) with 2 in Hk.
-  assert (Hcases : k = 0 \/ k = 1 \/ k = 2) by lia.
-  destruct Hcases as [->|[->| ->]]; vm_compute in Hp; discriminate Hp.
+  unfold all_ok in Hall. rewrite Forall_forall in Hall. exact (Hall o Hin).
 Qed.
 
 (* ---- consequences for the CLI's source-line display ---------------------------------------- *)
 From Verif Require Import Proofs.LexerShow.
 
-Theorem guarded_positions_showable src ds os :
+Theorem reported_positions_showable src ds os :
   scan_all src ds = LOk os ->
-  forall o, In o os -> token_guard (otok o) ->
+  forall o, In o os ->
   valid_pos src (tpos (otok o)) /\ exists r, show_source_line src (tpos (otok o)) = Ok r.
 Proof.
-  intros E o Hin Hg.
-  destruct (lexer_positions_guarded src ds os E o Hin Hg) as (H1 & H2).
+  intros E o Hin.
+  destruct (lexer_positions src ds os E o Hin) as (H1 & H2).
   assert (Hk : exists k, 0 <= k <= zlen src /\ tpos (otok o) = pos_of_offset src k).
   { destruct (Z.eq_dec (tkind (otok o)) T_ILLEGAL) as [Ek|Ek].
     - apply H2; exact Ek.
     - destruct (H1 Ek) as (Hp & Hr). eauto. }
   destruct Hk as (k & Hk & ->).
   destruct (show_source_line_ok src k Hk) as (line & Hs & Hv). split; [exact Hv|eauto].
-Qed.
-
-(* source 1 e + LF: the NEWLINE token is reported at 2:0, and showSourceLine's srcLine[:pos.Column-1]
-   is a slice [:-1] *)
-Theorem show_source_line_refuted :
-  exists src os o, scan_all src [] = LOk os /\ In o os /\ show_source_line src (tpos (otok o)) = Panic.
-Proof.
-  exists [49; 101; 43; 10].
-  destruct (scan_all [49; 101; 43; 10] []) as [os| |] eqn:E; [|vm_compute in E; discriminate E|vm_compute in E; discriminate E].
-  exists os. vm_compute in E. injection E as <-.
-  eexists. split; [reflexivity|]. split; [right; right; right; left; reflexivity|].
-  vm_compute. reflexivity.
 Qed.
